@@ -66,7 +66,9 @@ func (e EnumSchema[S, T]) ValidateCompatibility(typeOrData any) error {
 	for _, reflectKey := range validValuesMapField.MapKeys() {
 		var defaultValue T
 		defaultType := reflect.TypeOf(defaultValue)
-		if !reflectKey.CanConvert(defaultType) {
+		// Only values of the same kind are comparable: Go converts an integer to a string (the rune with that code
+		// point), which would make an integer enum look like a string enum.
+		if reflectKey.Kind() != defaultType.Kind() || !reflectKey.CanConvert(defaultType) {
 			return fmt.Errorf("invalid enum value type %s", reflectKey.Type())
 		}
 		keyToCompare := reflectKey.Convert(defaultType).Interface()
